@@ -17,7 +17,8 @@ def trigger_cases(rng, n):
         live, dead = r.rng(1, 12), r.rng(0, 12)
         tf = r.choice(TRIGS)
         tdead = r.choice([0, 100, 10 ** 9])
-        pol = "always" if r.chance(5, 6) else "never"
+        # window:open = hours 0..23; window:closed = one single hour, twelve hours away from now
+        pol = r.choice(["always"] * 7 + ["never", "window:open", "window:open", "window:closed"])
         ops = [("set", b"k%d" % j, b"v") for j in range(live)]
         for j in range(dead):
             ops.append(("set", b"k%d" % (j % live), b"w%d" % j))
@@ -102,7 +103,7 @@ def main(tier, seed):
                 items.append("ODel %s" % coq_bytes(o[1]))
         return "[" + "; ".join(items) + "]"
     terms = ["render_triggers [%s]" % "; ".join(
-        "(mkCfg %d false 1 1 1000000000 0, %s, mkTrig %d %d %d, %s)" % (c.cfg["mfs"], "PAlways" if c.pol == "always" else "PNever",
+        "(mkCfg %d false 1 1 1000000000 0, %s, mkTrig %d %d %d, %s)" % (c.cfg["mfs"], {"always": "PAlways", "never": "PNever", "window:open": "(PWindow 0 23 12)", "window:closed": "(PWindow 0 0 12)"}[c.pol],
                                                                        c.tf[0], c.tf[1], c.tdead, coq_ops(c)) for c in sh) for sh in shards]
     res, logs = coq_eval("C18", "Store.Engine Sys.Trigger Sys.RenderSys", terms)
     for l in logs[:2]:
@@ -117,8 +118,8 @@ def main(tier, seed):
         got = c.impl[-2] if len(c.impl) >= 2 else "missing"
         if got == "true":
             ntrue += 1
-        if c.pol == "never" and got != "false":
-            rep.failing.append({"what": "the merge trigger is reported with policy never", "case": c.show(), "extra": c.extra})
+        if c.pol in ("never", "window:closed") and got != "false":
+            rep.failing.append({"what": "the merge trigger is reported with policy %s" % c.pol, "case": c.show(), "extra": c.extra})
         if m is not None and got != m:
             ndis += 1
             rep.disagree.append({"obligation": "correspondence trigger: can_merge (binary64 model) = implementation", "case": c.show(),
@@ -185,7 +186,7 @@ def main(tier, seed):
         "evaluations": len(tcases) + len(timing) + 4, "fsyncs_after_rotation": nsync4, "fsyncs_beside_merge_check": nsync3, "trigger_true": ntrue,
         "distinct_nontrivial": len(set((c.pol, c.tf, c.tdead, c.impl[-2] if len(c.impl) >= 2 else "") for c in tcases)),
         "rule": "trigger: states with 1-12 live and 0-12 dead entries (+ tombstones of absent and present keys), 9 fragmentation "
-                "triggers incl. 0.6 and 3/5, 3 dead-bytes triggers, both policies: verif_can_merge() vs the binary64 model; timing: eight "
+                "triggers incl. 0.6 and 3/5, 3 dead-bytes triggers, policies always / never / window (open all day, closed now): verif_can_merge() vs the binary64 model; timing: eight "
                 "scenarios with 100-150 ms check intervals (merge appears within 2.5 s / does not within 0.7 s), two of them with interval sync enabled beside the merge check; interval sync (alone, and beside a faster merge check): "
                 "fsync calls on the active file counted by the recorder over 600 ms with a 50 ms interval (%d seen, %d with sync off)" % (nsync, nsync0),
         "samples": [{"config": tcases[0].extra, "ops": [S.show_op(o) for o in tcases[0].ops[:8] if o[0] in ("set", "del")]}],
